@@ -117,6 +117,8 @@ type c09x struct {
 	stack   []string
 	defers  [][]act
 	pos     token.Pos
+	cond    int             // nesting depth of conditional / loop bodies
+	alias   map[string]bool // local variables that are plain copies of the receiver pointer
 }
 
 func (x *c09x) errf(format string, a ...interface{}) {
@@ -328,8 +330,14 @@ func embeddedName(e ast.Expr) string {
 // ---------------------------------------------------------------- expressions
 
 func (x *c09x) isRecv(e ast.Expr) bool {
+	if p, ok := e.(*ast.ParenExpr); ok {
+		return x.isRecv(p.X)
+	}
 	id, ok := e.(*ast.Ident)
-	return ok && x.recv != "" && id.Name == x.recv && len(x.spec.globals) == 0
+	if !ok || len(x.spec.globals) > 0 || x.recv == "" {
+		return false
+	}
+	return id.Name == x.recv || x.alias[id.Name]
 }
 
 // the field of the shared object denoted by e, if any
@@ -512,11 +520,32 @@ func (x *c09x) inline(name string, body *ast.BlockStmt, recv string) []act {
 		return nil
 	}
 	x.stack = append(x.stack, name)
-	old := x.recv
+	old, oldAlias, oldCond := x.recv, x.alias, x.cond
+	if !strings.HasPrefix(name, "lit@") { // a method body has its own locals; a closure shares them
+		x.alias = map[string]bool{}
+	}
 	x.recv = recv
 	out := x.fnBody(body)
-	x.recv = old
+	x.recv, x.alias, x.cond = old, oldAlias, oldCond
 	x.stack = x.stack[:len(x.stack)-1]
+	return out
+}
+
+// once.Do(func(){...}).  "Program-ordered after the once" is established syntactically, so the
+// call must not sit under a condition or in a loop body (both branches are summarised one after
+// the other, which would wrongly put the code after an un-taken branch "after the once").
+func (x *c09x) onceAct(f *fieldInfo, lit *ast.FuncLit) []act {
+	if x.cond > 0 {
+		x.errf("%s.Do under a condition or in a loop: cannot be summarised soundly", f.name)
+		return nil
+	}
+	return []act{{k: 'o', id: f.id, body: x.inline(fmt.Sprintf("lit@%d", lit.Pos()), lit.Body, x.recv)}}
+}
+
+func (x *c09x) under(list []ast.Stmt) []act {
+	x.cond++
+	out := x.stmts(list)
+	x.cond--
 	return out
 }
 
@@ -563,7 +592,7 @@ func (x *c09x) call(c *ast.CallExpr) []act {
 			case fOnce:
 				if m == "Do" && len(c.Args) == 1 {
 					if lit, ok := c.Args[0].(*ast.FuncLit); ok {
-						return []act{{k: 'o', id: f.id, body: x.inline(fmt.Sprintf("lit@%d", lit.Pos()), lit.Body, x.recv)}}
+						return x.onceAct(f, lit)
 					}
 				}
 				x.errf("unsupported use of sync.Once field %s", f.name)
@@ -589,7 +618,7 @@ func (x *c09x) call(c *ast.CallExpr) []act {
 			if m == "Do" && len(c.Args) == 1 {
 				if f := x.embeddedOf(fOnce); f != nil {
 					if lit, ok := c.Args[0].(*ast.FuncLit); ok {
-						return []act{{k: 'o', id: f.id, body: x.inline(fmt.Sprintf("lit@%d", lit.Pos()), lit.Body, x.recv)}}
+						return x.onceAct(f, lit)
 					}
 				}
 			}
@@ -691,6 +720,17 @@ func (x *c09x) stmt(s ast.Stmt) []act {
 		return x.ex(t.X)
 	case *ast.AssignStmt:
 		out := x.exprs(t.Rhs)
+		if len(t.Lhs) == len(t.Rhs) { // l := recv makes l another name of the shared object
+			for i, r := range t.Rhs {
+				if id, ok := t.Lhs[i].(*ast.Ident); ok && id.Name != "_" {
+					if x.isRecv(r) && !x.isSlice {
+						x.alias[id.Name] = true
+					} else {
+						delete(x.alias, id.Name)
+					}
+				}
+			}
+		}
 		for _, l := range t.Lhs {
 			out = append(out, x.assignTarget(l, t.Tok != token.ASSIGN && t.Tok != token.DEFINE)...)
 		}
@@ -714,12 +754,15 @@ func (x *c09x) stmt(s ast.Stmt) []act {
 	case *ast.IfStmt:
 		out := x.stmt(t.Init)
 		out = append(out, x.ex(t.Cond)...)
-		out = append(out, x.stmts(t.Body.List)...)
-		return append(out, x.stmt(t.Else)...)
+		out = append(out, x.under(t.Body.List)...)
+		x.cond++
+		out = append(out, x.stmt(t.Else)...)
+		x.cond--
+		return out
 	case *ast.ForStmt:
 		out := x.stmt(t.Init)
 		out = append(out, x.ex(t.Cond)...)
-		out = append(out, x.stmts(t.Body.List)...)
+		out = append(out, x.under(t.Body.List)...)
 		out = append(out, x.stmt(t.Post)...)
 		if t.Cond == nil { // for { select { case <-c: return } }: the loop ends by a receive on c
 			for _, bs := range t.Body.List {
@@ -742,21 +785,21 @@ func (x *c09x) stmt(s ast.Stmt) []act {
 		return out
 	case *ast.RangeStmt:
 		out := x.ex(t.X)
-		return append(out, x.stmts(t.Body.List)...)
+		return append(out, x.under(t.Body.List)...)
 	case *ast.SwitchStmt:
 		out := x.stmt(t.Init)
 		out = append(out, x.ex(t.Tag)...)
 		for _, cl := range t.Body.List {
 			cc := cl.(*ast.CaseClause)
 			out = append(out, x.exprs(cc.List)...)
-			out = append(out, x.stmts(cc.Body)...)
+			out = append(out, x.under(cc.Body)...)
 		}
 		return out
 	case *ast.TypeSwitchStmt:
 		out := x.stmt(t.Init)
 		out = append(out, x.stmt(t.Assign)...)
 		for _, cl := range t.Body.List {
-			out = append(out, x.stmts(cl.(*ast.CaseClause).Body)...)
+			out = append(out, x.under(cl.(*ast.CaseClause).Body)...)
 		}
 		return out
 	case *ast.SelectStmt:
@@ -772,7 +815,7 @@ func (x *c09x) stmt(s ast.Stmt) []act {
 					x.errf("unsupported communication in select")
 				}
 			}
-			out = append(out, x.stmts(cc.Body)...)
+			out = append(out, x.under(cc.Body)...)
 		}
 		return out
 	case *ast.GoStmt:
@@ -842,6 +885,8 @@ type c09unit struct {
 func (x *c09x) runSpec(spec c09Spec) []c09unit {
 	x.spec = spec
 	x.fields = map[string]*fieldInfo{}
+	x.alias = map[string]bool{}
+	x.cond = 0
 	x.forder = nil
 	x.isSlice = false
 	x.pos = token.NoPos
